@@ -299,7 +299,7 @@ fn hist_oracle(c: &HistCase, rec: &Rec, _: &Ctx) -> Result<(), String> {
                     }
                     None => "custom".to_string(),
                 };
-                let wg = packing::wallpaper::WallpaperGroup { name: &name_str, family: table.family, wyckoff_str: listing.iter().map(|s| s.as_str()).collect() };
+                let wg = crate::statejson::custom_wallpaper_group(&name_str, table.family, listing.iter().map(|s| s.as_str()).collect());
                 let site = WyckoffSite::new(&wg).map_err(|e| format!("step {}: listing {:?} does not parse: {}", step, listing, e))?;
                 rec.eval(1);
                 if site.symmetries.len() != listing.len() {
